@@ -78,6 +78,9 @@ extern size_t verif_j, verif_k;
 	  (tgt)[i].H < 24U && (tgt)[i].M < 60U && (tgt)[i].S < 60U && \
 	  VERIF_PROTO_KEY(proto) <= VERIF_IKEY((tgt)[i]) && \
 	  !(IKEY(until) < IKEY((tgt)[i]))))
+/* a written slot of the daily filler lies between DTSTART and UNTIL */
+# define VERIF_DLY_SLOT_OK(tgt, i, res, proto, until)	\
+	(!((i) < (res)) || (!(IKEY((tgt)[i]) < IKEY(proto)) && !(IKEY(until) < IKEY((tgt)[i]))))
 # define VERIF_OUT_OK(tgt, res, nti, y, m, d, H, M, S)	\
 	((res) <= (nti) && \
 	 ((res) == 0U || VERIF_IKEY((tgt)[(res) - 1U]) < VERIF_KEY(y, m, d, H, M, S)) && \
@@ -1519,7 +1522,13 @@ rrul_fill_dly(echs_instant_t *restrict tgt, size_t nti, rrulsp_t rr)
 	/* set up the wday mask */
 	with (int tmp) {
 		for (bitint_iter_t dowi = 0UL;
-		     (tmp = bi447_next(&dowi, &rr->dow), dowi);) {
+		     (tmp = bi447_next(&dowi, &rr->dow), dowi);)
+#if defined ECHSE_VERIF
+		__CPROVER_assigns(dowi, tmp, wd_mask)
+		__CPROVER_loop_invariant(CUR_OK_447(&rr->dow, dowi) && dowi <= 1000U)
+		__CPROVER_decreases(1000 - (long)dowi)
+#endif	/* ECHSE_VERIF */
+		{
 			if (tmp >= (int)MON && tmp <= (int)SUN) {
 				wd_mask |= (uint8_t)(1U << (unsigned int)tmp);
 			} else {
@@ -1545,7 +1554,13 @@ rrul_fill_dly(echs_instant_t *restrict tgt, size_t nti, rrulsp_t rr)
 	/* set up the month mask */
 	with (unsigned int tmp) {
 		for (bitint_iter_t moni = 0UL;
-		     (tmp = bui31_next(&moni, rr->mon), moni);) {
+		     (tmp = bui31_next(&moni, rr->mon), moni);)
+#if defined ECHSE_VERIF
+		__CPROVER_assigns(moni, tmp, m_mask)
+		__CPROVER_loop_invariant(CUR_OK_BUI31(moni, rr->mon) && moni <= 64U)
+		__CPROVER_decreases(64 - (long)moni)
+#endif	/* ECHSE_VERIF */
+		{
 			m_mask |= 1U << tmp;
 		}
 	}
@@ -1558,7 +1573,13 @@ rrul_fill_dly(echs_instant_t *restrict tgt, size_t nti, rrulsp_t rr)
 	/* set up the days masks */
 	with (int tmp) {
 		for (bitint_iter_t domi = 0UL;
-		     (tmp = bi31_next(&domi, rr->dom), domi);) {
+		     (tmp = bi31_next(&domi, rr->dom), domi);)
+#if defined ECHSE_VERIF
+		__CPROVER_assigns(domi, tmp, posd_mask, negd_mask)
+		__CPROVER_loop_invariant(CUR_OK_BI31(domi, rr->dom) && domi <= 64U)
+		__CPROVER_decreases(64 - (long)domi)
+#endif	/* ECHSE_VERIF */
+		{
 			if (tmp > 0) {
 				posd_mask |= 1U << tmp;
 			} else if (tmp < 0) {
@@ -1584,7 +1605,17 @@ rrul_fill_dly(echs_instant_t *restrict tgt, size_t nti, rrulsp_t rr)
 		     if (w > SUN) {
 			     w = (w - 1U) % 7U + 1U;
 		     }
-		     while (d > maxd) {
+		     while (d > maxd)
+#if defined ECHSE_VERIF
+		     __CPROVER_assigns(y, m, d, maxd)
+		     __CPROVER_loop_invariant(
+			     1U <= m && m <= 12U && 1U <= d && d <= 200U && y <= 2200U && y + d <= 2400U &&
+			     maxd == (unsigned int)S_MDAYS(y, m) &&
+			     ((y == __CPROVER_loop_entry(y) && m == __CPROVER_loop_entry(m) && d == __CPROVER_loop_entry(d)) ||
+			      y > __CPROVER_loop_entry(y) || (y == __CPROVER_loop_entry(y) && m > __CPROVER_loop_entry(m))))
+		     __CPROVER_decreases(d)
+#endif	/* ECHSE_VERIF */
+		     {
 			     d--, d %= maxd, d++;
 			     if (++m > 12U) {
 				     y++;
@@ -1592,7 +1623,16 @@ rrul_fill_dly(echs_instant_t *restrict tgt, size_t nti, rrulsp_t rr)
 			     }
 			     maxd = echs_scale_ndim(srcsca, y, m);
 		     }
-	     })) {
+	     }))
+#if defined ECHSE_VERIF
+	__CPROVER_assigns(y, m, d, w, maxd, res, __CPROVER_object_upto(tgt, 2U * GRP_CCH_OFF * sizeof(*tgt)))
+	__CPROVER_loop_invariant(
+		1U <= m && m <= 12U && 1U <= d && d <= maxd && maxd == (unsigned int)S_MDAYS(y, m) &&
+		1U <= w && w <= 7U && y <= 2200U && res <= nti &&
+		VERIF_DLY_SLOT_OK(tgt, verif_k, res, proto, rr->until))
+	__CPROVER_decreases(2201 - (long)y, 12 - (long)m, 31 - (long)d)
+#endif	/* ECHSE_VERIF */
+	{
 		/* we're subtractive, so check if the current ymd matches
 		 * if not, just continue and check the next candidate */
 		if (!(wd_mask & (1U << w))) {
@@ -1609,7 +1649,15 @@ rrul_fill_dly(echs_instant_t *restrict tgt, size_t nti, rrulsp_t rr)
 
 		for (ENUM_INIT(e, iS, iM, iH);
 		     /* the cache may be full before the day is through */
-		     res < nti && ENUM_COND(e, iS, iM, iH); ENUM_ITER(e, iS, iM, iH)) {
+		     res < nti && ENUM_COND(e, iS, iM, iH); ENUM_ITER(e, iS, iM, iH))
+#if defined ECHSE_VERIF
+		__CPROVER_assigns(iS, iM, iH, res, __CPROVER_object_upto(tgt, 2U * GRP_CCH_OFF * sizeof(*tgt)))
+		__CPROVER_loop_invariant(
+			iS <= e.nS && iM < e.nM && iH < e.nH && res <= nti &&
+			VERIF_DLY_SLOT_OK(tgt, verif_k, res, proto, rr->until))
+		__CPROVER_decreases((long)e.nH - (long)iH, (long)e.nM - (long)iM, (long)e.nS - (long)iS)
+#endif	/* ECHSE_VERIF */
+		{
 			echs_instant_t x = {
 				.y = y,
 				.m = m,
